@@ -320,34 +320,48 @@ def repeat_shard(arg):
     return st
 
 
-BIG = ["knr_fdefs", "fdefs_with_locals", "decl", "typedef_use", "expr_stmt", "args", "init_list", "strings", "enumerators", "block_decls", "params", "members", "switch_cases"]
+# family -> k of the smaller input in the quick tier (about 0.5-1 G instructions at 4k; doubled in the thorough tier)
+BIG = {
+    "strings": 1600, "knr_fdefs": 250, "fdefs_with_locals": 250, "decl": 1600, "typedef_use": 1600, "expr_stmt": 1000, "args": 3200, "init_list": 3200,
+    "wstrings": 1600, "enumerators": 1600, "block_decls": 1000, "params": 1600, "members": 1000, "switch_cases": 1000, "linemarkers": 1000,
+    "struct_defs": 600, "typedef_names": 1600, "init_declarators": 1600,
+}  # fmt: skip
 
 
-def big_shard(name):
-    """Quadratic work hidden in C-level operations (list copies, dict merges) is
-    invisible to the call counter: compare CPU time at k and 4k for large k."""
+def big_shard(arg):
+    """Quadratic work hidden inside single C-level operations (list copies, dict
+    merges, string concatenation) is invisible to call and line events.  It is
+    measured in executed machine instructions (vlib/icount.py: a fresh
+    interpreter under valgrind's instruction counter, reproducible to 0.001 %
+    whatever the machine load): I(k) = instructions(family(k)) - instructions('int x;').
+    Linear work gives I(4k) = 4 I(k); the excess I(4k) - 4 I(k) must stay below
+    EXCESS of I(4k)."""
+    from .. import icount
+
+    name, k1 = arg
     st = Stats()
-
-    def job():
-        f = REPEAT[name]
-        k1, k2 = 3200, 12800
-
-        def cpu(k):
-            return min(steps_noprofile(f(k)) for _ in range(2))
-
-        t1, t2 = cpu(k1), cpu(k2)
-        st.evaluations += 4
-        st.classes["big_inputs"] += 1
-        if t2 > 0.2 and t2 > 5.5 * t1:
-            again = [(cpu(k1), cpu(k2)) for _ in range(3)]
-            if all(b > 0.2 and b > 5.5 * a for a, b in again):
-                st.failures.append(dict(subcheck="growth", case=("big", name), text=f(3), detail="family %s: CPU time %.3f s at k=%d vs %.3f s at k=%d (x%.1f for 4x the input; re-measured %s)" % (name, t2, k2, t1, k1, t2 / t1, [(round(a, 3), round(b, 3)) for a, b in again]), sig="superlinear-time"))
-            else:
-                st.classes["timing_suspicions_not_confirmed"] += 1
-        st.nontrivial += 1
-
-    in_big_thread(job)
+    f = REPEAT[name]
+    k2 = 4 * k1
+    try:
+        base = icount.baseline()
+        i1 = icount.instructions(f(k1)) - base
+        i2 = icount.instructions(f(k2)) - base
+    except icount.Unavailable as e:
+        # no instruction counter: CPU time is only good for a note, never for a verdict
+        st.classes["big_inputs_not_measured(no valgrind)"] += 1
+        st.notes["icount_unavailable"] = str(e)[:200]
+        return st
+    st.evaluations += 2
+    st.classes["big_inputs"] += 1
+    excess = (i2 - 4 * i1) / float(max(i2, 1))
+    st.notes["instructions_%s" % name] = "k=%d: %d, k=%d: %d, ratio %.3f, excess over linear %.1f%%" % (k1, i1, k2, i2, i2 / float(max(i1, 1)), 100 * excess)
+    if excess > EXCESS:
+        st.failures.append(dict(subcheck="growth", case=("big", name, k1), text=f(3), detail="family %s: %d instructions at k=%d, %d at k=%d (x%.2f for 4x the input): %.1f%% of the work at k=%d is in excess of linear growth (allowed %.0f%%)" % (name, i1, k1, i2, k2, i2 / float(max(i1, 1)), 100 * excess, k2, 100 * EXCESS), sig="superlinear-instructions"))
+    st.nontrivial += 1
     return st
+
+
+EXCESS = 0.08
 
 
 def steps_noprofile(src):
@@ -527,7 +541,7 @@ def run(ctx):
     names = sorted(REPEAT)
     ctx.map(repeat_shard, [(names[i::6], ctx.quick) for i in range(6)])
     ctx.map(triple_shard, [(s, ctx.pick(8, 300), ctx.quick) for s in ctx.shard_seeds(16)])
-    ctx.map(big_shard, BIG[:7] if ctx.quick else BIG)
+    ctx.map(big_shard, [(n, k * ctx.pick(1, 2)) for n, k in (list(BIG.items())[:9] if ctx.quick else BIG.items())])
     lnames = sorted(LEX_FAMILIES)
     # timing is measured with few processes at a time to keep the machine quiet
     ctx.map(lex_shard, [lnames[i::4] for i in range(4)])
@@ -544,7 +558,7 @@ def replay(subcheck, case):
     elif case[0] == "repeat":
         in_big_thread(check_family, "replay", REPEAT[case[1]], tuple(case[2]), st, case, steps_lines)
     elif case[0] == "big":
-        r = big_shard(case[1])
+        r = big_shard((case[1], case[2] if len(case) > 2 else BIG.get(case[1], 1600)))
         if r.failures:
             raise CheckFailure(**r.failures[0])
     elif case[0] == "lex":
